@@ -3,6 +3,8 @@ import Hls.Muxer.AcceptMicro
 # C01 helper lemmas, part 10 (specification level): on the LEADING track `accepted` is exactly
 "drop until the first random-access unit, drop units that stay negative" — `accepted_lead`.
 -/
+set_option linter.unusedSimpArgs false
+set_option linter.unusedVariables false
 namespace Hls.Muxer.Accept
 open Hls.Muxer
 
